@@ -138,7 +138,7 @@ def make_system(am, boxname, placement, pbc, velocity=False, charge=False, extra
         s[2] = [0.0, 0.0, 0.0]
         s[3] = [0.5, 0.5, 0.0]
     pos = s.dot(np.array(b['vects'])) + np.array(b['origin'])
-    atype = np.array([1, 2, 1, 3, 3, 1]) if gaps else np.array([1, 2, 1, 2, 2, 1])
+    atype = np.array([1, 3, 1, 3, 3, 1]) if gaps else np.array([1, 2, 1, 2, 2, 1])       # gaps: type 2 has no atoms
     prop = {'atype': atype, 'pos': pos}
     if velocity:
         prop['velocity'] = rng.uniform(-2, 2, (n, 3))
